@@ -38,6 +38,7 @@ ListItems(i) == {NilM, Msg("", "", "", Tok("x", i)), Msg("b", "", "", ""), [Empt
 Alphabet(i) ==
   CASE Fam = "hdr" -> Hdr(i)
     [] Fam = "calls" -> {EmptyM} \cup {[EmptyM EXCEPT !.calls = <<c>>] : c \in Calls1(i)}
+    [] Fam = "calls3" -> {EmptyM} \cup {[EmptyM EXCEPT !.calls = <<c>>] : c \in {d \in Calls1(i) : d.id # "q"}}
     [] Fam = "callsT" -> {EmptyM} \cup {[EmptyM EXCEPT !.calls = <<c>>] : c \in CallsT(i)}
     [] Fam = "calls2" -> {EmptyM} \cup {[EmptyM EXCEPT !.calls = <<c>>] : c \in Calls2(i)}
                          \cup {[EmptyM EXCEPT !.calls = <<c, [d EXCEPT !.args = Tok("v", i)]>>] : c \in Calls2(i), d \in Calls2(i)}
@@ -53,7 +54,7 @@ Alphabet(i) ==
     [] Fam = "int" -> {[n |-> 0], [n |-> 1], [n |-> 2]}
     [] Fam = "acc" -> {[s |-> "", n |-> 0], [s |-> Tok("x", i), n |-> 1], [s |-> "", n |-> 2]}
     [] Fam = "plain" -> {[n |-> 0], [n |-> 1], [n |-> 2]}
-Kind == CASE Fam \in {"hdr", "calls", "callsT", "calls2", "many", "meta", "extra"} -> "msg" [] OTHER -> Fam
+Kind == CASE Fam \in {"hdr", "calls", "calls3", "callsT", "calls2", "many", "meta", "extra"} -> "msg" [] OTHER -> Fam
 Paths == IF Kind = "msg" THEN {"cm", "cms"} ELSE {"ci"}      \* "graph" behaves as "cms" / "ci" in the transcription
 
 Init == cs = <<>> /\ Fam \in Fams
